@@ -1111,7 +1111,7 @@ Qed.
 Definition rtask (p : pc) : option nat :=
   match p with F_rdb b | F_rde b | F_wrb b _ | F_wre b _ => Some (btask b) | _ => None end.
 Definition wval (p : pc) : option Z := match p with F_wrb _ v | F_wre _ v => Some v | _ => None end.
-Definition enc (fid : nat -> Z) (log : list nat) : Z := fold_left (fun v tk => v * 16 + fid tk) log 0.
+Definition enc (fid : nat -> Z) (log : list nat) : Z := fold_left (fun v tk => apply_f (fid tk) v) log 0.
 
 Lemma rtask_holdsX p tk : rtask p = Some tk -> holdsX p = true.
 Proof. destruct p; cbn; congruence. Qed.
@@ -1132,7 +1132,7 @@ Record FInv (g : glob) (ls : list loc) : Prop := {
        texec (gh g) tk <> None /\ tfsets (gh g) tk = O /\ tfut g tk = FPending /\
        trunner (gh g) tk = Some u /\ tpre (gh g) tk = pay g;
   F3 : forall tk, texec (gh g) tk <> None ->
-       (tfsets (gh g) tk = 1%nat /\ (tfut g tk = FExn \/ tfut g tk = FVal (tpre (gh g) tk * 16 + tfid g tk))) \/
+       (tfsets (gh g) tk = 1%nat /\ (tfut g tk = FExn \/ tfut g tk = FVal (apply_f (tfid g tk) (tpre (gh g) tk)))) \/
        (exists u, rtask (pcof ls u) = Some tk);
   F4 : forall u v, wval (pcof ls u) = Some v -> v = pay g;
   F5 : pay g = enc (tfid g) (donelog (gh g));
@@ -1144,7 +1144,7 @@ Proof.
   unfold enc. generalize 0. induction log as [|a r IH]; intros z H; cbn; [reflexivity|].
   rewrite (H a (or_introl eq_refl)). apply IH. intros x Hx. apply H. right. exact Hx.
 Qed.
-Lemma enc_snoc f log tk : enc f (log ++ [tk]) = enc f log * 16 + f tk.
+Lemma enc_snoc f log tk : enc f (log ++ [tk]) = apply_f (f tk) (enc f log).
 Proof. unfold enc. rewrite fold_left_app. reflexivity. Qed.
 
 Section FKinds.
@@ -1270,7 +1270,7 @@ Section FKinds.
   (* the write window closes: the payload changes, the result is stored in the future cell *)
   Lemma FK_wre b v :
     let tk := btask b in
-    let nv := v * 16 + tfid g tk in
+    let nv := apply_f (tfid g tk) v in
     tfut g' = fupd (tfut g) tk (FVal nv) -> tfsets (gh g') = fupd (tfsets (gh g)) tk (S (tfsets (gh g) tk)) ->
     texec (gh g') = texec (gh g) -> trunner (gh g') = trunner (gh g) -> tpre (gh g') = tpre (gh g) -> pay g' = nv ->
     donelog (gh g') = donelog (gh g) ++ [tk] -> ntasks g' = ntasks g -> tfid g' = tfid g ->
@@ -1488,7 +1488,7 @@ Section Theorems.
   Qed.
   Lemma future_result s tk : RR s -> texec (gh (gl s)) tk <> None -> (forall u, rtask (pcof (thr s) u) <> Some tk) ->
     tfsets (gh (gl s)) tk = 1%nat /\
-    (tfut (gl s) tk = FExn \/ tfut (gl s) tk = FVal (tpre (gh (gl s)) tk * 16 + tfid (gl s) tk)).
+    (tfut (gl s) tk = FExn \/ tfut (gl s) tk = FVal (apply_f (tfid (gl s) tk) (tpre (gh (gl s)) tk))).
   Proof.
     intros HR He Hr. pose proof (R_inv _ _ _ _ HR) as [H1 HW HS HP HF].
     destruct (F3 _ _ HF tk He) as [B|[u B]]; [exact B|]. exfalso. apply (Hr u B).
